@@ -94,23 +94,29 @@ structure Fields where
   policies : List Oid
   deriving DecidableEq, Repr
 
-/-- A parsed certificate: copied fields, what is *not* copied (key, identifiers, serial, validity,
-    issuer) and the raw `Extensions` list in certificate order. -/
+/-- A parsed certificate = the components of its TBSCertificate: the copied fields (among them
+    the raw subject), what is *not* copied (version, serial, signature algorithm, issuer, validity,
+    key, parsed subject key identifier) and the raw `Extensions` list in certificate order. The
+    signature value itself is outside the model. -/
 structure Cert where
   f : Fields
-  publicKey : Str
+  version : Nat            -- 3 for everything `x509.CreateCertificate` emits
   serial : Nat
+  sigAlg : Str             -- AlgorithmIdentifier of the signature (chosen from the signer's key)
+  issuer : Str             -- raw issuer name
   notBefore : Int
   notAfter : Int
-  issuer : Str
+  publicKey : Str          -- raw SubjectPublicKeyInfo
+  subjectKeyId : Str       -- parsed `SubjectKeyId` (empty when there is no such extension)
   extensions : List Ext
   deriving DecidableEq, Repr
 
-/-- `x509.Certificate` used as a template for `CreateCertificate`. `subjectKeyId = none` is Go's
-    nil slice. -/
+/-- `x509.Certificate` used as a template for `CreateCertificate`. `none` is Go's nil
+    (`SerialNumber == nil`, `SubjectKeyId == nil`); `some []` is an empty non-nil slice. -/
 structure Tpl where
   f : Fields
   publicKey : Str
+  serial : Option Nat
   subjectKeyId : Option Str
   extra : List Ext
   deriving DecidableEq, Repr
@@ -123,6 +129,47 @@ def extOf (o : Oid) (es : List Ext) : Option Ext := es.find? (fun e => e.oid == 
 
 def dropOid (o : Oid) (es : List Ext) : List Ext := es.filter (fun e => !(e.oid == o))
 
+/-! ## 1b. Variants of the code -/
+
+/-- The code as it stands and the two proposed repairs. -/
+structure Variant where
+  /-- D9 repair (commit c93b602): `authorizeRenew` refuses `provisioner.Uninitialized` by a type
+      assertion on the selected provisioner (as `getProvisionerFromToken` does) -/
+  refuseUninit : Bool
+  /-- D17 repair (commit 33e7bf8): in the fallback branch the no-op provisioner is not accepted
+      when `certificateRecordsProvisioner(cert)` (the database names a provisioner) -/
+  noNoopWhenDbNames : Bool
+  /-- D9-RA repair (commit df3f6ee): the `Uninitialized` test looks through `*wrappedProvisioner` -/
+  unwrapUninit : Bool
+  /-- C09-SKI repair (commit ce0e905): `renewContext` sets an empty non-nil `SubjectKeyId` when it
+      renews (not rekeys) a certificate whose parsed `SubjectKeyId` is empty -/
+  keepNoSKI : Bool
+  /-- rekey key check (observation O3, deliberately not applied: C09 does not speak about key
+      strength): `renewContext` would refuse a rekey to a key the sign flow's
+      `defaultPublicKeyValidator` refuses -/
+  rekeyKeyCheck : Bool
+  /-- C09-MIG repair (proposed, not applied): the ca.json -> admin-database migration resolves the
+      renewal flags a provisioner leaves unset against the authority-level claims before storing
+      them (linkedca claims have no "unset") -/
+  migrationKeepsGlobals : Bool
+  deriving DecidableEq, Repr
+
+/-- the tree before the two `fix:` commits -/
+def asCodedBefore : Variant := ⟨false, false, false, false, false, false⟩
+/-- the tree after c93b602 (D9) and 33e7bf8 (D17), before df3f6ee -/
+def fixedD9D17 : Variant := ⟨true, true, false, false, false, false⟩
+/-- the tree after df3f6ee, before ce0e905 (C09-SKI) -/
+def beforeSKIFix : Variant := ⟨true, true, true, false, false, false⟩
+/-- /repo HEAD: the gate repairs (c93b602, 33e7bf8, df3f6ee) and the C09-SKI repair (ce0e905) -/
+def repaired : Variant := ⟨true, true, true, true, false, false⟩
+/-- HEAD plus the key check on rekey that was considered and not applied -/
+def withKeyCheck : Variant := ⟨true, true, true, true, true, false⟩
+/-- HEAD plus the proposed migration repair -/
+def withMigrationRepair : Variant := ⟨true, true, true, true, false, true⟩
+
+/-- THE ONE-LINE SWITCH: which variant the driver (and so the correspondence check) runs. -/
+def current : Variant := repaired
+
 /-! ## 2. `renewContext`: the template -/
 
 /-- The loop over `oldCert.Extensions`: everything is copied except the authority key identifier
@@ -130,12 +177,15 @@ def dropOid (o : Oid) (es : List Ext) : List Ext := es.filter (fun e => !(e.oid 
 def copyExtensions (isRekey : Bool) (es : List Ext) : List Ext :=
   es.filter fun e => !(e.oid == oidAKI) && !(e.oid == oidSKI && isRekey)
 
-/-- `newCert := &x509.Certificate{…}`; `pk = none` is renew, `some k` is rekey. `SubjectKeyId`
-    is never copied (it stays nil; the loop sets it to nil again on rekey). -/
-def renewTemplate (old : Cert) (pk : Option Str) : Tpl :=
+/-- `newCert := &x509.Certificate{…}`; `pk = none` is renew, `some k` is rekey. `SerialNumber`
+    is not set (nil: the CAS draws a fresh one). `SubjectKeyId` is never copied (it stays nil; the
+    loop sets it to nil again on rekey); with the C09-SKI repair it becomes an empty non-nil slice
+    when a certificate without subject key identifier is renewed. -/
+def renewTemplate (v : Variant) (old : Cert) (pk : Option Str) : Tpl :=
   { f := old.f
     publicKey := pk.getD old.publicKey
-    subjectKeyId := none
+    serial := none
+    subjectKeyId := if v.keepNoSKI && pk.isNone && old.subjectKeyId.isEmpty then some [] else none
     extra := copyExtensions pk.isSome old.extensions }
 
 /-! ## 3. Go's extension assembly -/
@@ -155,6 +205,8 @@ structure Enc where
   pol : Fields → Str
   nc : Fields → Str
   crl : Fields → Str
+  /-- the parser's counterpart of `ski`: content of the OCTET STRING of a subject key id extension -/
+  skiDec : Str → Str
 
 /-- `bytes.Equal(asn1Subject, emptyASN1Subject)` -/
 def subjectIsEmpty (f : Fields) : Bool := f.rawSubject == [0x30, 0x00]
@@ -197,6 +249,9 @@ structure Env where
   issuerSubject : Str      -- `chain[0].Subject`
   parentSKI : Str          -- `parent.SubjectKeyId` (authority key id of everything issued)
   skiOf : Str → Str        -- `x509util.generateSubjectKeyID`
+  sha1Of : Str → Str       -- crypto/x509's own fallback for CA certificates without identifier
+  sigAlg : Str             -- signature algorithm the signer's key implies
+  keyOK : Str → Bool       -- `defaultPublicKeyValidator` accepts the key (RSA ≥ 2048, EC, Ed25519)
 
 inductive SignErr where
   | zeroLifetime           -- "createCertificateRequest `lifetime` cannot be 0"
@@ -208,15 +263,23 @@ inductive SignErr where
     field was read from (assumption *parse determinism*, validated on every harness case). -/
 def caSign (env : Env) (t : Tpl) (lifetime : Int) : Except SignErr Cert :=
   if lifetime = 0 then .error .zeroLifetime else
-  -- x509util.CreateCertificate: template.SubjectKeyId == nil ⇒ generate from the public key
-  let ski := match t.subjectKeyId with | some k => k | none => env.skiOf t.publicKey
+  -- x509util.CreateCertificate: SerialNumber == nil ⇒ fresh random serial;
+  -- SubjectKeyId == nil ⇒ generated from the public key (an empty non-nil slice is kept)
+  let serial := match t.serial with | some n => n | none => env.serial
+  let ski0 := match t.subjectKeyId with | some k => k | none => env.skiOf t.publicKey
+  -- x509.CreateCertificate: `if len(subjectKeyId) == 0 && template.IsCA { sha1 of the key }`
+  let ski := if ski0.isEmpty && t.f.isCA then env.sha1Of t.publicKey else ski0
+  let exts := assemble env.enc t env.parentSKI ski
   .ok { f := t.f
-        publicKey := t.publicKey
-        serial := env.serial
+        version := 3
+        serial := serial
+        sigAlg := env.sigAlg
+        issuer := env.issuerSubject
         notBefore := env.now - env.backdate
         notAfter := env.now + lifetime
-        issuer := env.issuerSubject
-        extensions := assemble env.enc t env.parentSKI ski }
+        publicKey := t.publicKey
+        subjectKeyId := match extOf oidSKI exts with | some e => env.enc.skiDec e.value | none => []
+        extensions := exts }
 
 /-! ## 5. The gates -/
 
@@ -272,31 +335,9 @@ structure GateIn where
   expired : Bool           -- `now.After(cert.NotAfter)`
   deriving DecidableEq, Repr
 
-/-- The code as it stands and the two proposed repairs. -/
-structure Variant where
-  /-- D9 repair (commit c93b602): `authorizeRenew` refuses `provisioner.Uninitialized` by a type
-      assertion on the selected provisioner (as `getProvisionerFromToken` does) -/
-  refuseUninit : Bool
-  /-- D17 repair (commit 33e7bf8): in the fallback branch the no-op provisioner is not accepted
-      when `certificateRecordsProvisioner(cert)` (the database names a provisioner) -/
-  noNoopWhenDbNames : Bool
-  /-- D9-RA repair (commit df3f6ee): the `Uninitialized` test looks through `*wrappedProvisioner` -/
-  unwrapUninit : Bool
-  deriving DecidableEq, Repr
-
-/-- the tree before the two `fix:` commits -/
-def asCodedBefore : Variant := ⟨false, false, false⟩
-/-- the tree after c93b602 (D9) and 33e7bf8 (D17), before df3f6ee -/
-def fixedD9D17 : Variant := ⟨true, true, false⟩
-/-- /repo HEAD: all three repairs (c93b602, 33e7bf8, df3f6ee) -/
-def repaired : Variant := ⟨true, true, true⟩
-
-/-- THE ONE-LINE SWITCH: which variant the driver (and so the correspondence check) runs. -/
-def current : Variant := repaired
-
 inductive Reason where
   | revocationCheckFailed | revoked | provisionerNotFound | uninitialized
-  | notImplemented | renewDisabled | notYetValid | expired | customRefused
+  | notImplemented | renewDisabled | notYetValid | expired | customRefused | keyRejected
   deriving DecidableEq, Repr
 
 inductive Decision where
@@ -392,15 +433,24 @@ inductive Outcome where
   | issued (c : Cert)
   deriving DecidableEq, Repr
 
+/-- the proposed key check: on rekey, a key the sign flow would refuse is refused -/
+def keyRefused (v : Variant) (env : Env) : Option Str → Bool
+  | some k => v.rekeyKeyCheck && !env.keyOK k
+  | none => false
+
 /-- `renewContext` (the CA's own name constraints engine is an input of C05, not of this model:
     the fixture CA has no constraints, so `ValidateCertificate` accepts). -/
 def renew (v : Variant) (env : Env) (i : GateIn) (old : Cert) (pk : Option Str) : M Outcome :=
+  -- proposed key check, first thing on rekey
+  if keyRefused v env pk then
+    .val (.refused .keyRejected)
+  else
   match decide v i with
   | .crash => .crash
   | .val (.refuse r) => .val (.refused r)
   | .val .allow =>
     let lifetime := (old.notAfter - old.notBefore) - env.backdate
-    match caSign env (renewTemplate old pk) lifetime with
+    match caSign env (renewTemplate v old pk) lifetime with
     | .error e => .val (.signError e)
     | .ok c => .val (.issued c)
 
@@ -450,5 +500,213 @@ def apiRenew (v : Variant) (env : Env) (i : GateIn) (old : Cert) (pk : Option St
     -- rekey accepts only the TLS peer certificate
     if pk.isSome then .badRequest
     else if authorizeRenewToken i e then run else .unauthorized
+
+/-! ## 8. The handlers on the request as received (api/renew.go, api/rekey.go) -/
+
+/-- `strings.SplitN(s, "Bearer ", 2)` has two parts: the text after the *first occurrence* of
+    `Bearer ` anywhere in the header value (the scheme is not anchored at the start). -/
+def afterBearer : Str → Option Str
+  | [] => none
+  | c :: cs =>
+    if (s "Bearer ").isPrefixOf (c :: cs) then some ((c :: cs).drop 7) else afterBearer cs
+
+/-- What `POST /1.0/renew` looks at. -/
+structure RenewReq where
+  hasPeer : Bool           -- `r.TLS != nil && len(r.TLS.PeerCertificates) > 0`
+  authorization : Str      -- value of the `Authorization` header, empty when absent
+  deriving DecidableEq, Repr
+
+inductive PeerSource where
+  | peer | bearer (tok : Str) | missing
+  deriving DecidableEq, Repr
+
+/-- `getPeerCertificate`: the TLS peer wins; else a bearer token; else 400. -/
+def getPeerCertificate (r : RenewReq) : PeerSource :=
+  if r.hasPeer then .peer
+  else if r.authorization.isEmpty then .missing
+  else match afterBearer r.authorization with
+    | some t => .bearer t
+    | none => .missing
+
+/-- `api.Renew`. `tokenChecks t` are the outcomes of the checks `AuthorizeRenewToken` makes on the
+    token string `t` (external: JOSE parsing, signature, one-time use, claims). -/
+def handleRenew (v : Variant) (env : Env) (i : GateIn) (old : Cert) (r : RenewReq)
+    (tokenChecks : Str → Bool × Bool × Bool × Bool × Bool × Bool) : ApiResult :=
+  match getPeerCertificate r with
+  | .peer => apiRenew v env i old none .mtls
+  | .bearer t =>
+    let (a, b, c, d, e, f) := tokenChecks t
+    apiRenew v env i old none (.token a b c d e f)
+  | .missing => .badRequest
+
+/-- What `POST /1.0/rekey` looks at (the `Authorization` header is ignored). -/
+structure RekeyReq where
+  hasPeer : Bool
+  bodyParses : Bool        -- `read.JSON(r.Body, &body)` succeeds
+  csrPresent : Bool        -- `body.CsrPEM.CertificateRequest != nil`
+  csrSigOK : Bool          -- `CertificateRequest.CheckSignature()`: proof of possession of the new key
+  csrKey : Str
+  deriving DecidableEq, Repr
+
+/-- `api.Rekey` + `RekeyRequest.Validate`. -/
+def handleRekey (v : Variant) (env : Env) (i : GateIn) (old : Cert) (r : RekeyReq) : ApiResult :=
+  if !r.hasPeer then .badRequest
+  else if !r.bodyParses then .badRequest
+  else if !r.csrPresent then .badRequest
+  else if !r.csrSigOK then .badRequest
+  else apiRenew v env i old (some r.csrKey) .mtls
+
+/-! ## 8b. Where the renewal flags come from: configuration, migration, restart
+
+  `provisioner.Claims` has pointer fields (nil = "not set here, use the authority-level claims");
+  `Claimer.IsDisableRenewal` / `AllowRenewalAfterExpiry` resolve them. On the first start with
+  `enableAdmin` the provisioners of ca.json are stored through `ProvisionerToLinkedca`
+  (`claimsToLinkedca`: linkedca claims are plain booleans, an unset flag becomes the compile-time
+  default `false`) and from then on loaded through `claimsToCertificates` (every flag set). -/
+
+/-- the two renewal flags of a `provisioner.Claims` object -/
+structure RFlags where
+  disableRenewal : Option Bool
+  allowAfterExpiry : Option Bool
+  deriving DecidableEq, Repr
+
+/-- authority-level claims after `config` filled in its defaults (both `false`) -/
+structure GlobalFlags where
+  disableRenewal : Bool
+  allowAfterExpiry : Bool
+  deriving DecidableEq, Repr
+
+/-- `Claimer.IsDisableRenewal`, `Claimer.AllowRenewalAfterExpiry`; `none` = the provisioner has no
+    claims object -/
+def effectiveFlags (g : GlobalFlags) (pc : Option RFlags) : Bool × Bool :=
+  match pc with
+  | none => (g.disableRenewal, g.allowAfterExpiry)
+  | some c => (c.disableRenewal.getD g.disableRenewal, c.allowAfterExpiry.getD g.allowAfterExpiry)
+
+/-- `claimsToLinkedca` restricted to the renewal flags; with the proposed repair the defaults are
+    the authority-level claims instead of the compile-time `false` -/
+def claimsToLinkedca (v : Variant) (g : GlobalFlags) (pc : Option RFlags) : Option (Bool × Bool) :=
+  pc.map fun c =>
+    if v.migrationKeepsGlobals then
+      (c.disableRenewal.getD g.disableRenewal, c.allowAfterExpiry.getD g.allowAfterExpiry)
+    else (c.disableRenewal.getD false, c.allowAfterExpiry.getD false)
+
+/-- `claimsToCertificates` -/
+def claimsToCertificates (l : Option (Bool × Bool)) : Option RFlags :=
+  l.map fun (d, a) => ⟨some d, some a⟩
+
+/-- what the provisioner's claims are once it lives in the admin database -/
+def migrateClaims (v : Variant) (g : GlobalFlags) (pc : Option RFlags) : Option RFlags :=
+  claimsToCertificates (claimsToLinkedca v g pc)
+
+/-- the phases of a provisioner's life the stage drives -/
+inductive Phase where
+  | config | migrated | restarted
+  deriving DecidableEq, Repr
+
+/-- the provisioner's claims object in each phase (a restart reloads what the migration stored) -/
+def claimsAt (v : Variant) (g : GlobalFlags) (pc : Option RFlags) : Phase → Option RFlags
+  | .config => pc
+  | .migrated => migrateClaims v g pc
+  | .restarted => claimsToCertificates (claimsToLinkedca v g (migrateClaims v g pc))
+
+/-- The gate input of a certificate (extension + database record, not revoked) of that provisioner:
+    in ca.json the provisioner's id is `name:kid` and the record resolves; the migrated provisioner
+    has a fresh id, the record no longer resolves and the extension's name does. -/
+def phaseGate (v : Variant) (g : GlobalFlags) (pc : Option RFlags) (ph : Phase) (expired : Bool) : GateIn :=
+  let (d, a) := effectiveFlags g (claimsAt v g pc ph)
+  match ph with
+  | .config => ⟨.no, .found (.ctl d a .none) false, .found (.ctl d a .none), false, expired⟩
+  | _ => ⟨.no, .gone, .found (.ctl d a .none), false, expired⟩
+
+/-! ## 9. Source-derived facts
+
+  Tables that stage `facts` re-derives with go/ast from the working tree (and from the Go
+  toolchain's crypto/x509) on every run and compares with these definitions. The theorems of
+  Props/C09.lean Part G tie the tables to the model's functions. -/
+
+def dotted (o : Oid) : String := ".".intercalate (o.map toString)
+
+/-- Go names of the `x509.Certificate` fields the model's `Fields` stands for, in the order of the
+    structure's declaration. -/
+def fieldsGoNames : List String :=
+  ["RawSubject", "KeyUsage", "ExtKeyUsage", "UnknownExtKeyUsage", "UnhandledCriticalExtensions",
+   "BasicConstraintsValid", "IsCA", "MaxPathLen", "MaxPathLenZero", "OCSPServer", "IssuingCertificateURL",
+   "DNSNames", "EmailAddresses", "IPAddresses", "URIs", "PermittedDNSDomainsCritical",
+   "PermittedDNSDomains", "ExcludedDNSDomains", "PermittedIPRanges", "ExcludedIPRanges",
+   "PermittedEmailAddresses", "ExcludedEmailAddresses", "PermittedURIDomains", "ExcludedURIDomains",
+   "CRLDistributionPoints", "PolicyIdentifiers"]
+
+/-- keys of the `newCert := &x509.Certificate{…}` literal of `renewContext`, each a verbatim
+    `X: oldCert.X`, sorted -/
+def renewTemplateFields : List String :=
+  ["BasicConstraintsValid", "CRLDistributionPoints", "DNSNames", "EmailAddresses", "ExcludedDNSDomains",
+   "ExcludedEmailAddresses", "ExcludedIPRanges", "ExcludedURIDomains", "ExtKeyUsage", "IPAddresses", "IsCA",
+   "IssuingCertificateURL", "KeyUsage", "MaxPathLen", "MaxPathLenZero", "OCSPServer", "PermittedDNSDomains",
+   "PermittedDNSDomainsCritical", "PermittedEmailAddresses", "PermittedIPRanges", "PermittedURIDomains",
+   "PolicyIdentifiers", "RawSubject", "URIs", "UnhandledCriticalExtensions", "UnknownExtKeyUsage"]
+
+/-- every later assignment `newCert.<field> = <expr>` in `renewContext`, in source order -/
+def renewTemplateAssignments : List String :=
+  ["PublicKey=pk", "PublicKey=oldCert.PublicKey", "SubjectKeyId=nil",
+   "ExtraExtensions=append(newCert.ExtraExtensions,ext)", "SubjectKeyId=[]byte{}"]
+
+/-- the assigned fields of `renewTemplateAssignments` -/
+def renewTemplateAssignedFields : List String :=
+  ["PublicKey", "PublicKey", "SubjectKeyId", "ExtraExtensions", "SubjectKeyId"]
+
+/-- fields of the certificate's identity that the template must not carry -/
+def identityFields : List String :=
+  ["SerialNumber", "NotBefore", "NotAfter", "Issuer", "RawIssuer", "AuthorityKeyId", "Signature",
+   "SignatureAlgorithm", "Raw", "RawTBSCertificate", "RawSubjectPublicKeyInfo", "Extensions"]
+
+/-- OIDs the copy loop tests with `ext.Id.Equal(…)`, in source order -/
+def skippedExtensionOids : List Oid := [oidAKI, oidSKI]
+
+/-- crypto/x509 `buildCertExtensions`: the OIDs of the `oidInExtensions(…, template.ExtraExtensions)`
+    guards in source order = the order in which generated extensions are emitted -/
+def generatedOrder : List Oid :=
+  [oidKU, oidEKU, oidBC, oidSKI, oidAKI, oidAIA, oidSAN, oidPol, oidNC, oidCRLDP]
+
+def authorizeRenewCalls : List String :=
+  ["IsRevoked", "LoadProvisionerByCertificate", "loadProvisionerByCertificateOrNoop",
+   "certificateRecordsProvisioner", "assert:*wrappedProvisioner", "assert:provisioner.Uninitialized",
+   "AuthorizeRenew"]
+
+def renewTokenCalls : List String :=
+  ["ParseX5cInsecure", "Claims", "LoadProvisionerByCertificate", "UseToken", "ValidateWithLeeway",
+   "matchesAudience", "isRAProvisioner", "GetName"]
+
+def defaultAuthorizeRenewChecks : List String :=
+  ["IsDisableRenewal", "Before", "After", "AllowRenewalAfterExpiry"]
+
+/-- provisioner types whose `AuthorizeRenew` is `return p.ctl.AuthorizeRenew(ctx, cert)` (`Stored.ctl`) -/
+def ctlRenewTypes : List String := ["ACME", "AWS", "Azure", "GCP", "JWK", "K8sSA", "Nebula", "OIDC", "X5C"]
+/-- provisioner types that embed `*base` and define no `AuthorizeRenew` (`Stored.base`) -/
+def baseRenewTypes : List String := ["SCEP", "SSHPOP"]
+
+/-- name ↦ table, as the extractor renders it -/
+def factTable : String → Option (List String)
+  | "renewTemplateFields" => some renewTemplateFields
+  | "renewTemplateAssignments" => some renewTemplateAssignments
+  | "renewTemplateAssignedFields" => some renewTemplateAssignedFields
+  | "skippedExtensionOids" => some (skippedExtensionOids.map dotted)
+  | "authorizeRenewCalls" => some authorizeRenewCalls
+  | "renewTokenCalls" => some renewTokenCalls
+  | "loadByCertificateCalls" => some ["unsafeLoadProvisionerFromDatabase", "unsafeLoadProvisionerFromExtension"]
+  | "databaseLookupKey" => some ["a.provisioners.Load(data.Provisioner.ID)"]
+  | "extensionLookup" => some ["!ok||p.GetType()==0"]
+  | "renewContextCalls" => some ["renewContext"]
+  | "defaultAuthorizeRenewChecks" => some defaultAuthorizeRenewChecks
+  | "controllerAuthorizeRenew" => some ["AuthorizeRenewFunc", "DefaultAuthorizeRenew"]
+  | "ctlRenewTypes" => some ctlRenewTypes
+  | "baseRenewTypes" => some baseRenewTypes
+  | "otherRenewTypes" => some ["Controller", "MockProvisioner", "base", "noop"]
+  | "rekeyHandlerArgs" => some ["r.TLS.PeerCertificates[0]", "body.CsrPEM.CertificateRequest.PublicKey"]
+  | "renewHandlerArgs" => some ["ctx", "cert", "nil"]
+  | "peerCertificateSources" => some ["r.TLS!=nil&&len(r.TLS.PeerCertificates)>0", "s!=\"\"", "len(parts)==2"]
+  | "goGeneratedOrder" => some (generatedOrder.map dotted)
+  | "goExtraAppended" => some ["append(ret[:n],template.ExtraExtensions...)"]
+  | _ => none
 
 end Verif.Renew
